@@ -45,8 +45,16 @@ var verifReg = struct {
 	stores map[*fileStore]int
 }{stores: map[*fileStore]int{}}
 
+// VerifInitCacheSize, when positive, is the page-cache capacity of every file
+// store opened while it is set - including the store start-up recovery opens
+// for itself, which no caller can reach.
+var VerifInitCacheSize int
+
 // verifOpened records a store whose owner asked for a flush timer.
 func verifOpened(fs *fileStore, wantedTimer bool) {
+	if VerifInitCacheSize > 0 {
+		fs.cache = NewLRU(VerifInitCacheSize)
+	}
 	if !wantedTimer {
 		return
 	}
